@@ -141,7 +141,7 @@ func (m *Variant) Decode(b []byte) (int, error) {
 
 	// read flattened array elements
 	n := int(m.arrayLength)
-	if n > MaxVariantArrayLength {
+	if n < -1 || n > MaxVariantArrayLength {
 		return buf.Pos(), StatusBadEncodingLimitsExceeded
 	}
 
@@ -169,7 +169,9 @@ func (m *Variant) Decode(b []byte) (int, error) {
 	// check for dimensions of multi-dimensional array
 	if m.Has(VariantArrayDimensions) {
 		m.arrayDimensionsLength = buf.ReadInt32()
-		if m.arrayDimensionsLength < 0 {
+		// every dimension takes four bytes: more dimensions than the
+		// remaining input can hold is a bogus length
+		if m.arrayDimensionsLength < 0 || int(m.arrayDimensionsLength) > buf.Len()/4 {
 			return buf.Pos(), StatusBadEncodingLimitsExceeded
 		}
 		m.arrayDimensions = make([]int32, m.arrayDimensionsLength)
@@ -191,11 +193,16 @@ func (m *Variant) Decode(b []byte) (int, error) {
 	// validate that the total number of elements
 	// matches the product of the array dimensions
 	if m.arrayDimensionsLength > 0 {
-		count := int32(1)
+		// computed in 64 bit with an early exit: an int32 product can wrap
+		// around to the array length (e.g. 9 * 0x38E38E39 == 1 mod 2^32)
+		count := int64(1)
 		for i := range m.arrayDimensions {
-			count *= m.arrayDimensions[i]
+			count *= int64(m.arrayDimensions[i])
+			if count > int64(MaxVariantArrayLength) {
+				return buf.Pos(), errUnbalancedSlice
+			}
 		}
-		if count != m.arrayLength {
+		if count != int64(m.arrayLength) {
 			return buf.Pos(), errUnbalancedSlice
 		}
 	}
